@@ -54,6 +54,8 @@ func init() {
 		}
 		for _, a := range []anchor{
 			{"processLineSync", fExtractor, "extractorInstance.processLineSync"},
+			{"asyncWorker", fExtractor, "Extractor.asyncWorker"},
+			{"extractorNew", fExtractor, "New"},
 			{"getWorkerCount", fExtractor, "Config.getWorkerCount"},
 			{"ignoreMatch", fIgnore, "ExpressionIgnoreSet.IgnoreMatch"},
 			{"newIgnoreExpressions", fIgnore, "NewIgnoreExpressions"},
